@@ -64,7 +64,7 @@ let parse_answers s =
       if v = "!" then (k, None) else
       (match split_on '/' v with
        | [m; sy] ->
-         let ms = if m = "x" then None else Some (pairs m) in
+         let ms = if m = "x" || m = "n" then None else Some (pairs m) in
          (k, Some (ms, sy = "1"))
        | _ -> failwith ("bad answer " ^ p))) (split_on ';' s)
 
